@@ -1719,13 +1719,19 @@ impl LpgStore {
 
         let record = EdgeRecord::new(id, src, dst, type_id, epoch);
         let chain = VersionChain::with_initial(record, epoch, tx_id);
-        self.edges.write().insert(id, chain);
+
+        // Publish the record and its adjacency entries in one critical section: a
+        // concurrent DETACH DELETE that finds the record (it scans the edge map when
+        // there is no backward adjacency) must also find, and tombstone, the entries.
+        let mut edges = self.edges.write();
+        edges.insert(id, chain);
 
         // Update adjacency
         self.forward_adj.add_edge(src, dst, id);
         if let Some(ref backward) = self.backward_adj {
             backward.add_edge(dst, src, id);
         }
+        drop(edges);
 
         id
     }
